@@ -219,6 +219,23 @@ def grammar_script(rng):
         L.append("      loggee %s" % rng.choice([".x", "a b in .x as t", "in", ".x as"]))
     if rng.random() < 0.15:
         L.append("  server sv %s" % rng.choice(["rx :x", "rx a:b:c", "tx h:1 at 1j", "per a 1", "for a in .x", "be aux"]))
+    # paths that run *through* an existing share -- by the name of one of its fields, or by another name -- and on
+    # below it (drawn from a generator of its own so that the scripts above stay what they were)
+    r2 = random.Random(repr(L))
+    if r2.random() < 0.25:
+        base = r2.choice(["nav.depth", ".nav.depth", "nav"])
+        L.insert(1, "  init %s with %s" % (base, r2.choice(["5", "value 5 raw 2", "raw none", '"s"'])))
+        deep = base + "." + r2.choice(["value", "raw", "zz"]) + r2.choice(["", ".raw", ".value.q", ".a"])
+        k = r2.random()
+        if k < 0.4:
+            L.insert(2, "  init %s %s" % (deep, r2.choice(["with 1", "from .x", "with a 1"])))
+        elif k < 0.5:
+            L.insert(2, "  init .qq from %s" % deep)
+        else:
+            L += ["  framer zq be active", "    frame z0",
+                  "      " + r2.choice(["put 1 into %s", "inc %s with 1", "copy %s into .qq", "copy .x into %s", "go next if %s == 1",
+                                        "go next if %s is updated", "set %s with 1", "do vf rec per inp %s", "let me if %s"]) % deep,
+                  "    frame z1"]
     return "\n".join(L) + "\n"
 
 
